@@ -315,13 +315,17 @@ def A9(ctx: Ctx) -> RuleResult:
                             for st in ieffs:
                                 if isinstance(st, Store) and isinstance(st.target, Sub):
                                     k = st.target.index
-                                    if isinstance(k, Template) and [repr(p) for p in k.parts] == ['{$each:name}', "'.'", '{$each:subname}'] and st.value == Sym('each:subtoken'):
+                                    outer_names = [x.strip() for x in lp.target.strip('()').split(',')]
+                                    inner_names = [x.strip() for x in il.target.strip('()').split(',')]
+                                    want_parts = [Fmt(Sym(f'each:{outer_names[0]}'), '', ''), Const('.'), Fmt(Sym(f'each:{inner_names[0]}'), '', '')] if len(outer_names) == 2 and len(inner_names) == 2 else None
+                                    if want_parts and isinstance(k, Template) and list(k.parts) == want_parts and st.value == Sym(f'each:{inner_names[1]}'):
                                         ok_nested = True
                                     else:
                                         r.fail('MessageType.leaf_fields:key', f'nested leaves are stored under {k!r}, expected "<name>.<subname>"', fi.where)
             elif msg is False:
+                outer_names = [x.strip() for x in lp.target.strip('()').split(',')]
                 for st in effs:
-                    if isinstance(st, Store) and isinstance(st.target, Sub) and st.target.index == Sym('each:name') and st.value == Sym('each:token'):
+                    if len(outer_names) == 2 and isinstance(st, Store) and isinstance(st.target, Sub) and st.target.index == Sym(f'each:{outer_names[0]}') and st.value == Sym(f'each:{outer_names[1]}'):
                         ok_leaf = True
         (r.ok('recursive listing: fields[name + "." + subname] = subtoken for every nested entry; fields[name] = token for leaves') if ok_nested and ok_leaf else r.fail('MessageType.leaf_fields:shape', 'recursive idiom not recognised on both the nested and the leaf path', fi.where))
         return r
